@@ -174,6 +174,12 @@ impl Remover {
                 let end_cursor = child_markers.len()
                     - Self::merge_child_markers(child_markers.iter().rev(), &mut end_marker);
 
+                // A child overlapping both parts leaves nothing between them: remove the element as a whole.
+                if marker.end >= end_marker.start {
+                    acc.push((marker.start..end_marker.end, None));
+                    return acc;
+                }
+
                 let current = acc.len();
                 acc.push((
                     marker,
